@@ -41,6 +41,10 @@ RULE = (
     'emptied TLV, duplicated or deleted TLV, padded TLV, flipped or set byte; AS_PATH segment counts, prefix bit lengths, nested sub-TLVs included). '
     'valid-unusual: messages valid per the RFCs built with refwire (up to (msg_size-23)//3 unknown optional attributes, 255-AS segments, 1000+ NLRIs, '
     'exactly maximum-size messages with and without extended messages, OPEN with the maximum number of capabilities, RFC 9072 extended parameters); they must decode. '
+    'sweep (enumerated): one qa message per structural shape (66 shapes: message type, MP family, route and sub-TLV types), every byte set to 0 / 0x80 / 0xff / +1 / -1 and every TLV cut to '
+    'its first 1..8, half, all-but-one bytes with the enclosing lengths repaired (thorough: 10 values per byte, every cut, repaired and nested). '
+    'registry (enumerated): every type code the decoders dispatch on (attribute codes and flags, BGP-LS attribute and descriptor TLVs, prefix-SID / SRv6 sub-TLVs, tunnel-encap sub-TLVs and '
+    'segments, PMSI, AIGP, extended-community types, EVPN/MVPN/MUP/BGP-LS/VPLS/SR-policy/FlowSpec routes, labeled and VPN prefix lengths, capability codes, operational types) with a filler of every short length. '
     'bytes: random bytes, corpus splices, corpus messages under the wrong type or parameter set. '
     'atheris: coverage-guided libFuzzer campaign on the same entry point (fuzz/fuzz_decode.py), its findings replay through the bytes engine. '
     'Non-trivial = the outcome is a decode, or at least one attribute / capability / NLRI object was constructed before the refusal'
